@@ -19,6 +19,10 @@ pub trait HC: Codec + 'static + std::panic::RefUnwindSafe + std::panic::UnwindSa
     fn sym_unmask(_s: Self) -> Option<Self> {
         None
     }
+    /// the copying symbol-level forms (`Maskable::to_mask` / `to_unmask`, `Complement::to_comp`) where the codec has them
+    fn sym_to_forms(_s: Self) -> String {
+        "-".to_string()
+    }
     // in-place forms on an owned sequence
     fn seq_comp(_s: &mut Seq<Self>) -> bool {
         false
@@ -134,6 +138,9 @@ macro_rules! ord_methods {
 }
 
 impl HC for Dna {
+    fn sym_to_forms(s: Self) -> String {
+        format!("{:02x}", s.to_comp().to_bits())
+    }
     const NAME: &'static str = "dna";
     const HAS_COMP: bool = true;
     const HAS_MASK: bool = false;
@@ -144,6 +151,9 @@ impl HC for Dna {
 }
 
 impl HC for Iupac {
+    fn sym_to_forms(s: Self) -> String {
+        format!("{:02x}", s.to_comp().to_bits())
+    }
     const NAME: &'static str = "iupac";
     const HAS_COMP: bool = true;
     const HAS_MASK: bool = false;
@@ -170,6 +180,9 @@ impl HC for text::Dna {
 }
 
 impl HC for masked::Dna {
+    fn sym_to_forms(s: Self) -> String {
+        format!("{:02x}", s.to_comp().to_bits())
+    }
     const NAME: &'static str = "mdna";
     const HAS_COMP: bool = true;
     const HAS_MASK: bool = true;
@@ -181,6 +194,9 @@ impl HC for masked::Dna {
 }
 
 impl HC for masked::Iupac {
+    fn sym_to_forms(s: Self) -> String {
+        format!("{:02x}{:02x}", s.to_mask().to_bits(), s.to_unmask().to_bits())
+    }
     const NAME: &'static str = "miupac";
     const HAS_COMP: bool = true;
     const HAS_MASK: bool = true;
